@@ -333,7 +333,7 @@ def check(ctx):
         r1.bad(V(r1.id, short_path(adt), "unhashed:%s.%s" % (short_path(adt), name),
                  "%s.%s influences the generated output (read in %s) but is not an input of the cache digest: editing it answers 'up to date'"
                  % (adt, name, ", ".join(where))))
-    r1.require_floor(30, "model/config fields read by generation")
+    r1.require_floor(20, "model/config fields read by generation")
     rules.append(r1)
 
     # hashed values really reach the compared digest
